@@ -210,9 +210,9 @@ MANIFEST = dict(
     text=('TLC checks exhaustively (3 tasks, 2-3 priorities, bounded stamps) that the stable-priority-queue spec '
           'satisfies the stated laws and that a line-by-line model of the lazy-deletion heap refines it; the real '
           'class is bound to the spec by validating every history of length <=4 (thorough: 5) over the complete method '
-          'alphabet plus long random histories as traces, and by replaying simulated model behaviours.'),
+          'alphabet plus long random histories as traces (string keys and equal-but-not-identical keys), by replaying simulated model behaviours, and through its consumers: tie programs on the NRT clock scheduler and equal-time bundles in the OSC score, followed by TLC through the LogicalTime machine.'),
     note='Trusted: TLC, CPython heapq, the 60-line driver that records return values. Histories are finite and tasks are strings.',
-    technique='TLA+ L1/L2 refinement checked by TLC + batch trace validation of exhaustive/random histories on the real TaskQueue',
+    technique='TLA+ L1/L2 refinement checked by TLC + batch trace validation of exhaustive/random histories on the real TaskQueue and of its consumers (NRT scheduler, OSC score)',
     design_ref='DESIGN.md section 3 / C09',
     engine='TaskQueue',
 )
